@@ -26,6 +26,18 @@ def checkLine (line : String) : String :=
       | "SQLW" => checkSqlw
       | "QID" => checkQid
       | "SQLR" => checkSqlr
+      | "PLOT" => (do
+          let _ ← pOracle
+          expect "PLOT"
+          let _ ← pNat
+          let f ← pFrame
+          expect "R"
+          let st ← next
+          let good := st == "ok" || st == "err"
+          let special := f.any (fun kc => kc.2.data.any (fun c => match c with
+            | .flt _ (.fin _) => false
+            | _ => true))
+          pure s!"c20={if good then "ok" else "fail:plot-" ++ st} corr=ok nontrivial={if special then 1 else 0} st_status={st}")
       | e => throw s!"unknown engine {e}"
     pure s!"{id} {eng} {res}"
   match runP p line with
